@@ -13,13 +13,17 @@ from lib.engine import TranslateError
 ID = "C06"
 PROPS_MODULE = "AslProps.C06"
 DRIVER = "c06"
-RULE = ("a case = one text with its ops: whole decode (Json::decode / Xdl::decode), incremental XdlParser fed in 2..k chunks "
+RULE = ("a case = one text with its ops (every run starts with the fixed integer-literal block: literals of every length 1..25 digits, "
+        "both signs, 10^k+-2, all-nines, leading digits 1..9, 2^31/32/52/53/54/62/63/64/65/80 +- small deltas and +- half an ulp, each as top-level value, "
+        "array element, object member, XDL member, cut at every byte by the chunked parser, and with fraction/exponent suffixes; python compares the bits "
+        "with float(literal)): whole decode (Json::decode / Xdl::decode), incremental XdlParser fed in 2..k chunks "
         "(all 2-chunk cuts for short texts, random k-chunk cuts otherwise), decodes of prefixes; texts = grammar-generated JSON "
         "(all escapes, all number spellings, whitespace variants, nesting to 512) and XDL documents, their mutations "
         "(truncation, deletion, duplication, splicing, byte flips, insertions) and raw/boundary-alphabet bytes; "
         "non-trivial = distinct case whose text is non-empty")
 TRUSTED = ["tools/props/c06.py generators and the python3 json reference oracle",
-           "tools/props/c06.py translate(): regex extraction of the UNICODECHAR stack-buffer sizes (src/Xdl.cpp) into lean/Gen/XdlGen.lean",
+           "tools/props/c06.py translate(): regex extraction of the UNICODECHAR stack-buffer sizes and of the state-INT int/atof split "
+           "(`_buffer.length() > N` -> ASL_ATOF, else myatoiz; any other shape or another integer routine in parse() is refused) from src/Xdl.cpp into lean/Gen/XdlGen.lean",
            "lean/AslModel/Strtod.lean as the meaning of atof (compared with glibc on every number of every run)"]
 ASSUMPTIONS = [
     "glibc atof/strtod is correctly rounded to nearest-even in the C locale (model: AslModel.Strtod.atofBits; exercised by K on every generated number)",
@@ -53,7 +57,15 @@ def translate(repo):
         raise TranslateError("UNICODECHAR: buffer declarations (unicode[], ch[] for 1 and 2 code units) not recognised")
     if len(re.findall(r"char\s+ch\s*\[", blk)) != 2 or len(re.findall(r"utf16toUtf8\s*\(", blk)) != 2:
         raise TranslateError("UNICODECHAR: unexpected number of ch[] buffers / utf16toUtf8 calls")
-    txt = "/- GENERATED by tools/props/c06.py from src/Xdl.cpp (state UNICODECHAR) — do not edit -/\nnamespace Gen.Xdl\n\n"
+    mint = re.search(r"if\s*\(\s*_buffer\.length\(\)\s*>\s*(\d+)\s*\)[^\n]*\n\s*new_number\s*\(\s*ASL_ATOF\s*\(\s*_buffer\s*\)\s*\)\s*;\s*else\s*new_number\s*\(\s*myatoiz\s*\(\s*_buffer\s*\)\s*\)\s*;\s*value_end\s*\(\s*\)\s*;", src)
+    if not mint:
+        raise TranslateError("case INT: `if (_buffer.length() > N) new_number(ASL_ATOF(_buffer)); else new_number(myatoiz(_buffer));` not recognised "
+                             "(the int/double split of integer literals changed)")
+    if len(re.findall(r"myatol\s*\(|myatoi\s*\(|strtol|strtoll|atoll|atol\s*\(", src.split("void XdlParser::parse")[1].split("XdlParser::XdlParser()")[0])) != 0:
+        raise TranslateError("XdlParser::parse converts a token with an integer routine other than myatoiz (myatol/strtol...)")
+    txt = "/- GENERATED by tools/props/c06.py from src/Xdl.cpp (states INT, UNICODECHAR) — do not edit -/\nnamespace Gen.Xdl\n\n"
+    txt += "/-- state INT: integer literals of more than this many characters go through `atof`, the others through `myatoiz` -/\n"
+    txt += "def intSplit : Nat := %s\n" % mint.group(1)
     txt += "/-- `char unicode[N]`, filled by `memcpy(unicode, _unicode, K)` and `unicode[T] = 0` -/\n"
     txt += "def unicodeBuf : Nat := %s\ndef unicodeCopy : Nat := %s\ndef unicodeTerm : Nat := %s\n" % mu.groups()
     txt += "/-- member `char _unicode[N]` (Xdl.h), written at index `(_unicodeCount++) %% K` -/\ndef unicodeMember : Nat := %s\ndef unicodeMod : Nat := %s\n" % (mh.group(1), mi.group(1))
@@ -62,7 +74,7 @@ def translate(repo):
     return {"Gen/XdlGen.lean": txt}
 
 
-FALLBACK = {"Gen/XdlGen.lean": "namespace Gen.Xdl\ndef unicodeBuf : Nat := 0\ndef unicodeCopy : Nat := 0\ndef unicodeTerm : Nat := 0\n"
+FALLBACK = {"Gen/XdlGen.lean": "namespace Gen.Xdl\ndef intSplit : Nat := 0\ndef unicodeBuf : Nat := 0\ndef unicodeCopy : Nat := 0\ndef unicodeTerm : Nat := 0\n"
                                "def unicodeMember : Nat := 0\ndef unicodeMod : Nat := 0\ndef chPair : Nat := 0\ndef chSingle : Nat := 0\nend Gen.Xdl\n"}
 
 WS = b" \t\n\r"
@@ -315,9 +327,58 @@ def feed_case(rng, t):
     return ops
 
 
+def int_literals(rng):
+    """integer literals of every length 1..25 with dense coverage of the conversion boundaries (deterministic part + a few random)"""
+    vals = set()
+    for k in range(0, 26):
+        p = 10 ** k
+        for d in (-2, -1, 0, 1, 2):
+            vals.add(p + d)
+        vals.add(10 ** (k + 1) - 1)                      # all nines
+        for lead in range(1, 10):
+            vals.add(lead * p)
+            vals.add(lead * p + rng.randrange(p) if p > 1 else lead)
+    for e in (31, 32, 52, 53, 54, 62, 63, 64, 65, 80):
+        p = 2 ** e
+        for d in (-3, -2, -1, 0, 1, 2, 3, 1 << max(0, e - 54), -(1 << max(0, e - 54)), 1023, 1024, 1025):
+            vals.add(p + d)
+    for L in range(1, 26):
+        vals.add(rng.randrange(10 ** (L - 1), 10 ** L))
+    vals |= {9223372036854775807, 9223372036854775808, 9223372036854775809, 9876543210987654321, 9999999999999999999, 10000000000000000000,
+             18446744073709551615, 18446744073709551616, 4294967295, 4294967296, 2147483647, 2147483648, 9007199254740993, 9007199254740995}
+    out = []
+    for v in sorted(x for x in vals if x >= 0):
+        out.append(str(v).encode())
+        if v > 0:
+            out.append(b"-" + str(v).encode())
+    return out
+
+
+def int_literal_cases(rng, quick):
+    cases = []
+    lits = int_literals(rng)
+    sfx = [b".0", b".5", b"e0", b"E+2", b"e-3", b".25e1"]
+    for i, lit in enumerate(lits):
+        h = hexs(lit)
+        ops = ["dec " + h, "dec " + hexs(b"[" + lit + b"]"), "dec " + hexs(b'{"id":' + lit + b"}"),
+               "dec " + hexs(b" [1, " + lit + b" ,2]\n"), "xdec " + hexs(b"{id=" + lit + b"}")]
+        for k in range(0, len(lit) + 1):                   # the chunked parser cut at every byte
+            ops.append("chunks %s %d" % (h, k))
+        arr = b"[" + lit + b"]"
+        for k in (1, len(arr) // 2, len(arr) - 1):
+            ops.append("chunks %s %d" % (hexs(arr), k))
+        s1 = sfx[i % len(sfx)]
+        s2 = sfx[(i // len(sfx)) % len(sfx)]
+        ops.append("dec " + hexs(lit + s1))
+        ops.append("dec " + hexs(b"[" + lit + s2 + b"]"))
+        ops.append("chunks %s %d" % (hexs(lit + s1), len(lit)))
+        cases.append(ops)
+    return cases
+
+
 def gen(rng, tier):
     quick = tier == "quick"
-    cases = []
+    cases = int_literal_cases(rng, quick)
     N = 1 if quick else 120
     allcuts = 48 if quick else 300
     # (a) grammar-generated JSON and XDL documents
@@ -521,7 +582,12 @@ def reference(line):
     t = line.split()
     try:
         if t[0] in ("dec", "xdec") and len(t) == 2:
-            r = py_expect(unhex(t[1]))
+            x = unhex(t[1])
+            if t[0] == "xdec" and x[:4] == b"{id=" and x[-1:] == b"}":
+                # XDL member holding a JSON number literal: the same number as the JSON literal
+                r = py_expect(x[4:-1])
+                return "{6964:%s}" % r[1] if r and r[1][0] in "id" else None
+            r = py_expect(x)
             return r[1] if r else None
         if t[0] == "prefix" and len(t) == 3:
             text = unhex(t[1])
@@ -690,13 +756,19 @@ LEVEL_TEXT = ("Proved in Lean 4, for ALL byte strings / chunkings / documents, a
               "included, for EVERY value of the code units, not only those four hex digits can spell); chunk_indep/chunk_indep_poll (any partition of a "
               "NUL-free text gives the same value(), also when polled between chunks); rfc_accept/rfc_accept_chunked (every RFC 8259 text - grammar "
               "written from the RFC as an inductive relation: any white space, every number spelling, every escape incl. \\/ and surrogate pairs, "
-              "duplicate keys, nesting <= 1000 - decodes to the value it denotes); prefix_reject (every text that stops before the final closing "
+              "duplicate keys, nesting <= 1000 - decodes to the value it denotes); int_literal_value (integer literals of EVERY length: at most 9 "
+              "characters - the split is read from the `_buffer.length() > N` of state INT on every run - give the int with exactly the decimal value; longer "
+              "ones give the double of atof on the lexeme, which is exactly +-n below 2^53, +-(n rounded to the nearest multiple of its binary64 spacing, "
+              "ties to even) from 2^53 to 2^1024, +-infinity above; so the sign is the literal's sign and 9223372036854775808 is 2^63); prefix_reject (every text that stops before the final closing "
               "byte of a top-level array, object or string is rejected, wherever the cut falls; via a frame lemma: a run that does not fault "
               "is unchanged by contexts added below the stack). The model is tied to the code on every run by the "
               "correspondence check under ASan/UBSan (whole decodes, chunked feeding, prefixes; grammar-generated JSON/XDL, mutations, raw bytes) "
               "and python3 json adjudicates every RFC 8259 document and prefix generated.")
 LEVEL_NOTE = ("All four planned theorem groups are proved in full (no _partial). rfc_accept and prefix_reject carry the hypothesis nesting <= 1000 "
               "(the decoder's own limit; the property asks for 512). "
+              "int_literal_value states correct rounding on the grid of multiples of 2^(floor(log2 n)-52) with a 53-bit significand; that this grid is the set of "
+              "binary64 values around n is the definition of the format, not a separate theorem. Fraction/exponent literals are covered by K + python only "
+              "(general correct rounding of Strtod.roundRatio is not formalised). "
               "XDL-only syntax (bare identifiers, class names, comments, newline separators) has no independent grammar: covered by "
               "parse_safe/chunk_indep and K only. Hypotheses carried by K rather than proved: glibc atof = correctly rounded (AslModel/Strtod.lean), "
               "strtoul on the 4-byte \\u accumulator, C locale, Var/String/Array container semantics (C01-C04). "
